@@ -483,3 +483,75 @@ class EmulatorInit(Contract):
 
 for _2d in (False, True):
     fuc('segyio_emulator.py::SegyioEmulator.__init__', props=['C13', 'C15'])(type('EmulatorInit' + ('2d' if _2d else ''), (EmulatorInit,), dict(two_d=_2d, variant='2d' if _2d else '3d')))
+
+
+# ---------------------------------------------------------------------------------------------
+# xarray entry point (C02 / C05): dataset = lazily indexed cube of the reader's shape with the reader's axes as coordinates
+
+XR = ('SeismicZfpBackendEntrypoint.open_dataset',)
+
+
+def register_xr_models(lib):
+    def xr_dataset(I, data_vars=None, coords=None, **kw):
+        ds = SObj(None, clsname='$xrdataset')
+        ds.fields.update(data_vars=data_vars, coords=coords, close=None)
+        cur().ghost.setdefault('datasets', []).append(ds)
+        return ds
+    lib.ext['xarray.Dataset'] = xr_dataset
+    lib.methods[('$xrdataset', 'set_close')] = lambda I, ds, fn: ds.fields.__setitem__('close', fn)
+
+
+MX.EXTRA_REGISTRARS.append(register_xr_models)
+
+
+class XrReaderInit(_Rec):
+    tag = 'xr_reader_init'
+    only_in = XR
+
+    def value(self, c, a):
+        from . import objects as O
+        me = a['self']
+        nI = c.sym_int('nI', lo=2, name='n_ilines'); nX = c.sym_int('nX', lo=2, name='n_xlines'); nZ = c.sym_int('nZ', lo=2, name='n_samples')
+        me.fields.update(n_ilines=nI, n_xlines=nX, n_samples=nZ, ilines=O.axis_array(c, 'ilines', nI), xlines=O.axis_array(c, 'xlines', nX), zslices=O.axis_float(c, 'zslices', nZ))
+        return None
+
+
+fuc('read.py::SgzReader.__init__', props=[], modular=True)(XrReaderInit)
+
+
+class XrOpenDataset(Contract):
+    """open_dataset(file): one variable 'data' over dims (il, xl, z) backed by a SeismicZfpBackendArray of the reader's shape and dtype float32 on a
+    reader opened on that file; coordinates il / xl / z are the reader's inline numbers, crossline numbers and sample axis; closing the dataset
+    closes the reader"""
+    may_raise = ()
+
+    def inputs(self, c):
+        me = SObj(c.ex.prog.klass('SeismicZfpBackendEntrypoint'), {})
+        return dict(self=me, filename_or_obj='x.sgz', drop_variables=None)
+
+    def post(self, c, a, result):
+        from pyvc.symex import BoundMethod
+        calls = c.ghost.get('glue_calls', [])
+        inits = [x for x in calls if x[0] == 'xr_reader_init']
+        c.ensure(mk_bool(len(inits) == 1 and inits[0][1]['file'] == 'x.sgz'), 'one_reader_on_the_given_file')
+        if len(inits) != 1:
+            return
+        rd = inits[0][1]['self']
+        ok = isinstance(result, SObj) and result.clsname == '$xrdataset'
+        c.ensure(mk_bool(ok), 'returns_the_dataset')
+        if not ok:
+            return
+        dv, co = result.fields['data_vars'], result.fields['coords']
+        c.ensure(mk_bool(isinstance(dv, dict) and list(dv.keys()) == ['data'] and tuple(dv['data'][0]) == ('il', 'xl', 'z')), 'one_variable_over_il_xl_z')
+        arr = dv['data'][1]
+        ok2 = isinstance(arr, SObj) and arr.cls is not None and arr.cls.name == 'SeismicZfpBackendArray' and arr.fields.get('sgz_reader') is rd
+        c.ensure(mk_bool(ok2), 'backed_by_the_reader')
+        if ok2:
+            shp = arr.fields['shape']
+            c.ensure(And(eq(shp[0], rd.fields['n_ilines']), eq(shp[1], rd.fields['n_xlines']), eq(shp[2], rd.fields['n_samples'])), 'shape_is_the_cube_shape')
+        c.ensure(mk_bool(isinstance(co, dict) and co.get('il') is rd.fields['ilines'] and co.get('xl') is rd.fields['xlines'] and co.get('z') is rd.fields['zslices']), 'coordinates_are_the_reader_axes')
+        cl = result.fields.get('close')
+        c.ensure(mk_bool(isinstance(cl, BoundMethod) and cl.obj is rd and cl.finfo.qualname.endswith('.close')), 'closing_the_dataset_closes_the_reader')
+
+
+fuc('sgz_xarray.py::SeismicZfpBackendEntrypoint.open_dataset', props=['C02', 'C05'])(XrOpenDataset)
